@@ -532,6 +532,15 @@ func genList(r *vlib.R, maxN int) (string, []netip.Prefix) {
 	n := r.Intn(maxN + 1)
 	var pool []netip.Prefix
 	var parts []string
+	if r.Chance(1, 10) {
+		// a non-empty list in which EVERY entry fails to parse: nothing is
+		// allowed (the open default is for an empty configuration only)
+		bads := []string{"10.0.0.0.8", "192.168.1.0/33", "localhost", "not-a-cidr", "::/129", "10.0.0.0", "1.2.3.4/"}
+		for i, m := 0, 1+r.Intn(3); i < m; i++ {
+			parts = append(parts, "bad:"+vlib.Hex([]byte(vlib.Pick(r, bads))))
+		}
+		return strings.Join(parts, ","), nil
+	}
 	for i := 0; i < n; i++ {
 		fam := 4
 		if r.Chance(2, 5) {
